@@ -442,3 +442,20 @@ pub fn parse_args() -> (Vec<bool>,Vec<String>) {
     setup_env_logger(log_level, &log_file);
     (vec![suppress_tokens],vec![])
 }
+
+/// Verification hook, compiled only with `--cfg a2kit_verif`: schedule perturbation for the analysis threads.
+/// `A2KIT_VERIF_DELAYS` holds comma separated `point:version:millis` items (`*` matches every version); a thread
+/// reaching `point` for a document of that version sleeps that long.  Without the variable nothing happens.
+#[cfg(a2kit_verif)]
+pub fn verif_delay(point: &str, version: Option<i32>) {
+    if let Ok(spec) = std::env::var("A2KIT_VERIF_DELAYS") {
+        for item in spec.split(',') {
+            let f: Vec<&str> = item.split(':').collect();
+            if f.len()==3 && f[0]==point && (f[1]=="*" || Some(f[1].to_string())==version.map(|v| v.to_string())) {
+                if let Ok(ms) = f[2].parse::<u64>() {
+                    std::thread::sleep(std::time::Duration::from_millis(ms));
+                }
+            }
+        }
+    }
+}
